@@ -4,13 +4,13 @@ CONSTANTS
  BatchSizes = {1,2}
  Cap = 2
  SyncWrites = FALSE
- Spill = TRUE
+ Spill = FALSE
  MaxHist = 0
  Keys = {1,2}
  NBuckets = 1
- VCap = 0
- MaxGC = 0
- MaxCrash = 1
+ VCap = 2
+ MaxGC = 2
+ MaxCrash = 2
  FlushWorkers = 1
  GcSync = TRUE
  GcExact = TRUE
